@@ -20,6 +20,11 @@ impl TryFrom<String> for BuildpackApi {
         // If no minor version is specified, it defaults to `0`.
         let (major, minor) = &value.split_once('.').unwrap_or((&value, "0"));
 
+        // Integer parsing accepts an explicit `+` sign, which is not part of a Buildpack API version.
+        if major.starts_with('+') || minor.starts_with('+') {
+            return Err(Self::Error::InvalidBuildpackApi(value.clone()));
+        }
+
         Ok(Self {
             major: major
                 .parse()
